@@ -22,7 +22,35 @@ build() {
     go build -tags verif -overlay "$B/overlay.json" -o "$B/mc" ./cmd/mc || exit 2
   ) 9>"$B/.lock"
 }
-if [ "$ID" = "build" ]; then build; exit $?; fi
+# instrumented binary (mc-inst): "sync" -> verifshim/vsync, map ranges -> venv.Keys
+build_inst() {
+  (
+    flock 9
+    cd "$V/mc" || exit 2
+    cp /repo/go.sum "$V/mc/go.sum" 2>/dev/null
+    go build -o "$B/mkoverlay" ./cmd/mkoverlay || exit 2
+    if [ -n "${VERIF_MUT:-}" ]; then
+      "$B/mkoverlay" -out "$B/overlay-inst.json" -scratch "$B/mut-inst" -inst "$B/inst" -mut "$VERIF_MUT" || exit 2
+    else
+      "$B/mkoverlay" -out "$B/overlay-inst.json" -inst "$B/inst" || exit 2
+    fi
+    go build -tags "verif verifinst" -overlay "$B/overlay-inst.json" -o "$B/mc-inst" ./cmd/mc || exit 2
+  ) 9>"$B/.lock-inst"
+}
+if [ "$ID" = "build" ]; then build && build_inst; exit $?; fi
+case "$ID" in
+  C09|C10|C11)
+    if ! build >"$B/build.log" 2>&1; then
+      cat "$B/build.log"; echo "ENGINE-ERROR: build failed"; exit 2
+    fi
+    if ! build_inst >"$B/build-inst.log" 2>&1; then
+      cat "$B/build-inst.log"
+      echo "ENGINE-ERROR: instrumented build failed"
+      exit 2
+    fi
+    cd "$V" && exec "$B/mc-inst" check "$ID" --tier "$TIER"
+    ;;
+esac
 if ! build >"$B/build.log" 2>&1; then
   cat "$B/build.log"
   echo "ENGINE-ERROR: build failed"
